@@ -70,6 +70,7 @@ def step1 (line : String) : String :=
       | some row => !covers row c (genFor c)
       | none => true)
     "ok " ++ (if bad.isEmpty then "-" else ",".intercalate (bad.map Cls.pyName))
+  | ["classes"] => "ok " ++ ",".intercalate (Cls.all.map Cls.pyName)
   | ["row", cn] =>
     match Cls.ofName cn with
     | some c =>
